@@ -234,3 +234,88 @@ pub fn render_plain(doc: &Automerge, candidates: &[(ObjId, ObjType)]) -> String 
         Err(e) => format!("ERR {}", e),
     }
 }
+
+/// A second, wider rendering used to compare reads at historical heads with the same reads on
+/// fork_at(heads) (C07): range iterators, values, point reads, text, parents — everything formatted
+/// without actor indexes so that documents with different actor tables compare equal.
+pub fn render_reads<D: ReadDoc>(doc: &D, candidates: &[(ObjId, ObjType)], heads: Option<&[ChangeHash]>) -> String {
+    use std::fmt::Write as _;
+    let mut s = String::new();
+    for (id, _t) in candidates {
+        let ty = match doc.object_type(id) {
+            Ok(t) => t,
+            Err(_) => continue,
+        };
+        let _ = write!(s, "\n#{} {:?}:", id, ty);
+        if ty.is_sequence() {
+            let items: Vec<String> = match heads {
+                None => doc.list_range(id, ..).map(|i| format!("{}={:?}/{}/{}", i.index, i.value, i.conflict, i.id())).collect(),
+                Some(h) => doc.list_range_at(id, .., h).map(|i| format!("{}={:?}/{}/{}", i.index, i.value, i.conflict, i.id())).collect(),
+            };
+            let _ = write!(s, " range[{}]", items.join(","));
+            let n = items.len();
+            let vals: Vec<String> = match heads {
+                None => doc.values(id).map(|(v, i)| format!("{:?}/{}", v, i)).collect(),
+                Some(h) => doc.values_at(id, h).map(|(v, i)| format!("{:?}/{}", v, i)).collect(),
+            };
+            let _ = write!(s, " values[{}]", vals.join(","));
+            for k in 0..n.min(12) {
+                let g = match heads {
+                    None => doc.get(id, k),
+                    Some(h) => doc.get_at(id, k, h),
+                };
+                let _ = write!(s, " get{}={:?}", k, g.map(|o| o.map(|(v, i)| format!("{:?}/{}", v, i))).map_err(|_| ()));
+            }
+            if ty == ObjType::Text {
+                let t = match heads {
+                    None => doc.text(id),
+                    Some(h) => doc.text_at(id, h),
+                };
+                let _ = write!(s, " text={:?}", t.map_err(|_| ()));
+            }
+        } else {
+            let items: Vec<String> = match heads {
+                None => doc.map_range(id, ..).map(|i| format!("{}={:?}/{}/{}", i.key, i.value, i.conflict, i.id())).collect(),
+                Some(h) => doc.map_range_at(id, .., h).map(|i| format!("{}={:?}/{}/{}", i.key, i.value, i.conflict, i.id())).collect(),
+            };
+            let _ = write!(s, " range[{}]", items.join(","));
+            let vals: Vec<String> = match heads {
+                None => doc.values(id).map(|(v, i)| format!("{:?}/{}", v, i)).collect(),
+                Some(h) => doc.values_at(id, h).map(|(v, i)| format!("{:?}/{}", v, i)).collect(),
+            };
+            let _ = write!(s, " values[{}]", vals.join(","));
+            let keys: Vec<String> = match heads {
+                None => doc.keys(id).collect(),
+                Some(h) => doc.keys_at(id, h).collect(),
+            };
+            for k in keys.iter().take(12) {
+                let g = match heads {
+                    None => doc.get(id, k.as_str()),
+                    Some(h) => doc.get_at(id, k.as_str(), h),
+                };
+                let _ = write!(s, " get{}={:?}", k, g.map(|o| o.map(|(v, i)| format!("{:?}/{}", v, i))).map_err(|_| ()));
+            }
+        }
+        let parents = match heads {
+            None => doc.parents(id).map(|p| p.map(|x| format!("{}/{:?}/{}", x.obj, x.prop, x.visible)).collect::<Vec<_>>()),
+            Some(h) => doc.parents_at(id, h).map(|p| p.map(|x| format!("{}/{:?}/{}", x.obj, x.prop, x.visible)).collect::<Vec<_>>()),
+        };
+        let _ = write!(s, " parents={:?}", parents.map_err(|_| ()));
+    }
+    s
+}
+
+/// canonical rendering of a hydrated value: map keys sorted (the value's own Debug walks a HashMap)
+pub fn render_hydrate(v: &automerge::hydrate::Value) -> String {
+    use automerge::hydrate::Value as H;
+    match v {
+        H::Scalar(s) => format!("{:?}", s),
+        H::Map(m) => {
+            let mut items: Vec<(&String, String)> = m.iter().map(|(k, mv)| (k, format!("{}{}", render_hydrate(&mv.value), if mv.conflict { "!" } else { "" }))).collect();
+            items.sort();
+            format!("{{{}}}", items.iter().map(|(k, v)| format!("{:?}:{}", k, v)).collect::<Vec<_>>().join(","))
+        }
+        H::List(l) => format!("[{}]", l.iter().map(|lv| format!("{}{}", render_hydrate(&lv.value), if lv.conflict { "!" } else { "" })).collect::<Vec<_>>().join(",")),
+        H::Text(t) => format!("T{:?}", t),
+    }
+}
